@@ -309,8 +309,14 @@ impl Dependencies for Function {
     }
 
     fn dependencies(&self) -> Vec<Dependency> {
-        self.body
-            .net_dependencies()
+        self.body.net_dependencies()
+    }
+
+    /// What the body needs is matched against the parameters while it still belongs to this
+    /// function - a `modify x = ..` in a nested block names a captured variable, which a
+    /// parameter called `x` does not supply - and leaves the function afterwards.
+    fn net_dependencies(&self) -> Vec<Dependency> {
+        super::get_net_dependencies(self, false)
             .into_iter()
             .map(Dependency::cross_function)
             .collect()
